@@ -111,6 +111,9 @@ def invariant_body(i, field, rel, c):
     load = [("pushn", 4, e2e.sel("get()")), ("push", 224), "SHL", "PUSH0", "MSTORE",
             ("push", 64), ("push", 0x40), ("push", 4), "PUSH0"] + target_addr(i) + [("push", 0xFFFFFF), "STATICCALL", "POP",
             ("push", 0x40 + (0 if field == "s" else 32)), "MLOAD"]
+    if rel == "nebr":  # as "ne", after two branches on the value that change nothing (several paths per symbolic state)
+        pre = e2e.if_then(load + [("push", 100), "EQ"], [], "b1") + e2e.if_then(load + [("push", 101), "EQ"], [], "b2")
+        return pre + e2e.if_then(load + [("push", c), "EQ"], panic(1), "brk") + ["STOP"]
     if rel == "ne":
         broken = load + [("push", c), "EQ"]
     elif rel == "lenow":  # value <= block.timestamp: broken iff TIMESTAMP < value (time never goes backwards along a call sequence)
